@@ -158,6 +158,8 @@ class World:
             return Unk(name, "array")
         if isinstance(v, Unk) and v.typ == "array":
             return Unk(name, "array")
+        if isinstance(v, Unk) and v.typ == "ext":
+            return Unk(name, "object")      # an external object created by the constructor (Event, logger, ...)
         if isinstance(v, Ref):
             self._havoc(v, sublabel, seen)
             return v
